@@ -153,7 +153,12 @@ fn is_ident(t: &str) -> bool {
 fn is_size_position(lx: &[(String, String)], i: usize) -> bool {
     let prev = if i > 0 { lx[i - 1].1.as_str() } else { "" };
     let next = lx.get(i + 1).map(|x| x.1.as_str()).unwrap_or("");
-    prev == ";" || prev == ".." || prev == "..=" || next == ".." || next == "..=" || prev == "const" || prev == "="
+    if prev == ";" || prev == ".." || prev == "..=" || next == ".." || next == "..=" || prev == "const" || prev == "=" {
+        return true;
+    }
+    // inside `const { .. }` / a constant expression / max(..) / min(..): a `const` or `;` a few tokens back
+    let back = lx[i.saturating_sub(8)..i].iter().rev().take_while(|t| t.1 != "]" && t.1 != "}").any(|t| t.1 == "const" || t.1 == ";");
+    back && matches!(prev, "{" | "+" | "-" | "(" | ",")
 }
 
 pub fn run(tier: Tier) -> i32 {
